@@ -12,6 +12,9 @@ Definition km (k : kind) : option markup :=
   end.
 Definition pushk (k : kind) (f : flat_text) : flat_text :=
   match km k with None => f | Some m => push_m m f end.
+(* ... as the constructor really applies it: Tag('emph', ...) is Tag('em', ...) *)
+Definition pushk_e (k : kind) (f : flat_text) : flat_text :=
+  match km k with None => f | Some m => push_m (erase_m m) f end.
 
 (* the markup an existing text object carries at its top level *)
 Definition top_markup (t : rt) : option markup :=
@@ -86,3 +89,17 @@ Fixpoint spec (e : expr) : option sval :=
 Definition top_e (t : rt) : option markup := option_map erase_m (top_markup t).
 Definition agrees (v : rt) (r : sval) : Prop := top_e v = fst r /\ erase (flat v) = snd r.
 
+
+(* ------------------------------------------------------------------------------ *)
+(* well-formed texts: no Tag carries the deprecated name "emph" (the constructor renames it to
+   "em", so every text the API can build is well-formed) *)
+Fixpoint wfb (t : rt) : bool :=
+  match t with
+  | RStr _ | RSym _ => true
+  | RText ps | RHRef _ _ ps | RProt ps => forallb wfb ps
+  | RTag n ps => str_eqb (canon_name n) n && forallb wfb ps
+  end.
+Definition wf (t : rt) : Prop := wfb t = true.
+
+(* the sequence of markup stacks of a rendering, position by position *)
+Definition stacks (f : flat_text) : list (list markup) := map snd f.
